@@ -174,4 +174,12 @@ def extra(res, lean, drv, tier, rnd):
 def run(tier):
     return core.standard_run(PROP, tier, MODULES, THEOREMS, gen, oracle, classify, RULE, ASSUME, extra=extra, unspecified=unspecified)
 def replay(path):
+    import json
+    case = json.load(open(path)).get('case') or ''
+    if case.startswith('route '):
+        from vlib import drivers
+        from vlib.props import c09
+        mdrv, err = core.build_driver('drv_mt', drivers.MT_SOURCES)
+        out = core.run_lines(mdrv, [case])[0]; d = core.safe_oracle(c09.oracle, case, out)
+        print('case:', case); print('impl:', out); print('oracle:', d or 'holds'); return 1 if d else 0
     return core.standard_replay(PROP, path, oracle)
